@@ -99,6 +99,41 @@ def spellings(fun, assignment, extras):
     return out
 
 
+SLOT_KW_CLASS = "empty slot whose parameter is passed by keyword"
+
+
+def slot_keyword_variants(fun, assignment, extras):
+    """NOT a spelling of the property's list: a parameter passed by keyword whose positional slot is left
+    empty as well, f(x, , b => y).  get_delegate binds it like every other spelling; map_args rejects it
+    unless the definition has *args (open finding, class SLOT_KW_CLASS)."""
+    vis = [p for p in fun["pos"] if p[1] != ["H"]]
+    kwonly = [p for p in fun["kwonly"] if p[1] != ["H"]]
+    out = []
+    if extras:
+        return out
+    for k in range(len(vis)):
+        if not any(assignment[p[0]] is not None for p in vis[k:]):
+            continue
+        prefix = [assignment[p[0]] if assignment[p[0]] is not None else ["skip"] for p in vis[:k]]
+        kw = [[rc.palias(p), assignment[p[0]]] for p in vis[k:] + kwonly if assignment[p[0]] is not None]
+        last = max(i for i, p in enumerate(vis) if i >= k and assignment[p[0]] is not None)
+        out.append((prefix + [["skip"]] * (last - k + 1), kw))
+    return out
+
+
+def precheck_guard(fun, assignment):
+    """every visible positional parameter's argument (or default) passes the pre-evaluation type check and every
+    bound parameter is given or defaulted: exactly then map_args must accept all spellings (C12_spellings_map_exact)"""
+    ps, star, kwonly, ss = rc._sparams(fun)
+    for p in [q for q in ps if not q.hidden] + [q for q in kwonly if not q.hidden]:
+        a = assignment[p.name]
+        if a is None and not p.has_default:
+            return False
+        if p.where == "pos" and not p.accepts(a if a is not None else ["raw", p.default]):
+            return False
+    return True
+
+
 def gen_assignment(rng, fun):
     ids = itertools.count(1)
     asg = {}
@@ -199,6 +234,8 @@ def correspondence(run):
         group = []
         for a, k in sp:
             calls.append((a, k, "spelling"))
+        for a, k in slot_keyword_variants(fun, asg, extras):
+            calls.append((a, k, "slot+keyword"))
         hidden_pos = any(p[1] == ["H"] for p in fun["pos"])
         for a, k, origin in calls:
             mobs, dobs = run_binding(fd, ctx, a, k)
@@ -210,15 +247,15 @@ def correspondence(run):
                 run.fail("violation", "get_delegate raised an exception other than ArgumentException or delivered a foreign object",
                          {"fun": fun, "args": a, "kw": k, "observed": dobs})
                 continue
-            if origin == "spelling":
-                group.append((a, k, dobs))
+            if origin in ("spelling", "slot+keyword"):
+                group.append((a, k, dobs, mobs is not None, origin))
             cases.append(bcase_term(fd, a, k, mobs, dobs))
             meta.append((fun, a, k, mobs, dobs))
         if len(meta) % 50 == 0:
             run.sample({"fun": fun, "args": calls[0][0], "kw": calls[0][1]})
         # the property itself, directly: all spellings of one assignment bind alike
         outs = {}
-        for a, k, dobs in group:
+        for a, k, dobs, _, _ in group:
             key = repr(dobs if dobs is None else [dobs[0], sorted(dobs[1])])
             outs.setdefault(key, (a, k, dobs))
         if len(outs) > 1:
@@ -228,6 +265,26 @@ def correspondence(run):
                       "spelling_1": {"args": vals[0][0], "kw": vals[0][1], "bound": vals[0][2]},
                       "spelling_2": {"args": vals[1][0], "kw": vals[1][1], "bound": vals[1][2]},
                       "required": "the same get_delegate binding for every spelling"})
+        # map_args: under the guard every spelling is accepted (C12_spellings_map_equal_guarded / _exact)
+        if group and not extras and precheck_guard(fun, asg):
+            run.count("map_args:guarded-assignment")
+            rejected = [(a, k) for a, k, _, ok, origin in group if not ok and origin == "spelling"]
+            if rejected:
+                run.fail("violation", "map_args rejects a spelling although every parameter is given or defaulted and every "
+                                      "argument passes the pre-evaluation check",
+                         {"fun": fun, "assignment": asg, "extras": extras, "rejected_spelling": {"args": rejected[0][0], "kw": rejected[0][1]},
+                          "required": "accepted, like every other spelling of the assignment"})
+            odd = [(a, k) for a, k, _, ok, origin in group if not ok and origin == "slot+keyword"]
+            if odd and not rejected:
+                run.count("map_args:slot+keyword-rejected")
+                if not _slot_kw_reported:
+                    _slot_kw_reported.append(1)
+                    run.fail("violation", "map_args rejects a call whose parameter is passed by keyword while its positional slot is left "
+                                          "empty, f(x, , b => y), although get_delegate binds it like every other spelling (and the same "
+                                          "call is accepted when the definition happens to have *args)",
+                             {"finding_class": SLOT_KW_CLASS, "fun": fun, "assignment": asg,
+                              "slot_keyword_call": {"args": odd[0][0], "kw": odd[0][1]},
+                              "required": "accepted (or rejected) independently of an unrelated *args parameter"})
     bad = run.coq_mismatches(HEADER, "bcase", "bcase_ok", cases, shard=300)
     for i in bad[:20]:
         fun, a, k, mobs, dobs = meta[i]
@@ -254,6 +311,17 @@ def correspondence(run):
                      {"name": name, "observed": p, "required": exp})
         else:
             run.fail("mismatch", "Model/Naming.v and specs.convert_function_name disagree", {"name": name, "function_name": f, "parameter_name": p})
+
+
+_slot_kw_reported = []
+
+
+def classify(failure, known_entries):
+    cls = failure.data.get("finding_class")
+    for k in known_entries:
+        if cls and k.get("class") == cls:
+            return "%s %s" % (k["id"], k.get("line", ""))
+    return None
 
 
 def load_corpus():
@@ -711,6 +779,11 @@ def replay(run, data):
         if cand:
             kind_check(run, cand[0])
         return len(run.failures) == before
+    if "slot_keyword_call" in d or "rejected_spelling" in d:
+        fd = rc.make_function(d["fun"])
+        c = d.get("slot_keyword_call") or d["rejected_spelling"]
+        mobs, _ = run_binding(fd, rc.OrderedContext(), c["args"], c["kw"])
+        return mobs is not None
     if "spelling_1" in d:
         fd = rc.make_function(d["fun"])
         ctx = rc.OrderedContext()
